@@ -1688,7 +1688,7 @@ def alias_family(binaries, rng, quick):
 # ONE alias program per opcode value (form and kind of function rotating); the thorough tier calls fullcompile_check
 # (all scripts, 600 generated programs, the bridge to CompileExpr.v) and two alias programs per value.
 
-def fullcompile_tie(ctx, binary, rng, quick):
+def fullcompile_tie(ctx, binary, rng, quick, extra=()):
     """-> a function `join()` -> (programs on which model and compiler differ [(name, source, why)], evidence dict).
     Every random choice is drawn here, in the caller's thread; the model is evaluated in a worker thread while the
     caller runs the verifier."""
@@ -1719,9 +1719,9 @@ def fullcompile_tie(ctx, binary, rng, quick):
         corp = fc.corpus()
         if len(corp) > 200:         # quick: core.yl + 180 of the test scripts (rotating with the seed); thorough: all
             corp = [corp[i] for i in sorted(rng.sample(range(len(corp) - 1), 180))] + corp[-1:]
-        srcs = corp + fc.generated(rng, 30) + directed
+        srcs = corp + fc.generated(rng, 30) + directed + list(extra)
     else:
-        srcs = directed
+        srcs = directed + list(extra)
 
     def evaluate():
         cov = {}
@@ -1748,6 +1748,7 @@ def fullcompile_tie(ctx, binary, rng, quick):
             ctx.corr_broken.append("FullCompile: model and compiler.rs disagree on %s: %s" % (b["name"], b["why"]))
         cov.update({"fullcompile_tie_" + k: v for k, v in st.items()})
         cov["fullcompile_tie_directed_alias_programs"] = len(directed)
+        cov["fullcompile_tie_scale_programs"] = len(extra)
         cov["fullcompile_tie_soft"] = [b for b in bad if b.get("soft")][:10]
         cov["fullcompile_tie_seconds"] = round(_t.time() - t0, 1)
         diff = []
@@ -1770,6 +1771,81 @@ def fullcompile_tie(ctx, binary, rng, quick):
             ex.shutdown(wait=False)
     return join
 
+
+
+# ------------------------------------------------------------------------------------------------
+# round 9: SCALE family (tools/c04_scale.py).  Every counting dimension of compiler.rs - locals per scope, locals
+# discarded by break / continue (captured ones at every position), nested scopes, captured variables through 1-3
+# function levels, constants, strings, parameters (fn / lambda / method / static), arguments, vec elements,
+# interpolation parts, methods per class, classes, nested functions, try depth x exit kind, loop depth x exit kind,
+# else-if chain length - pushed one at a time through a ladder of sizes (1 .. 40, then 48 64 65 100 128 129 200 250 ...).
+# Oracles: (i) compiles; (ii) RUN, output known in closed form (a function of the size), release build for everything,
+# debug build for a rotating quarter (quick) / everything (thorough); (iii) the proved verifier on every function;
+# (iv) the byte-for-byte FullCompile tie on the compact cells (fullcompile_tie).
+
+def scale_family(binaries, rng, quick):
+    """-> (rows, items to verify, failures [(what, src, expected, actual, build)], correspondence errors, tie sources)"""
+    import c04_scale as sc
+    rot = rng.randrange(1 << 16)
+    cells = sc.scale_cells(rot, quick)
+    rel = binaries["release"]
+    comp = compile_sources(rel, [c[1] for c in cells], timeout_ms=120000)
+    runs = run_sources(rel, [c[1] for c in cells])
+    # the debug build collects at every allocation: small cells only (a 250-locals cell needs > 30 s there), a rotating quarter in the quick tier
+    dbg_idx = [i for i in range(len(cells)) if len(cells[i][1]) <= (6000 if quick else 30000)
+               and ((not quick) or ((i * 2654435761 + rot) >> 9) % 4 == 0)]
+    druns = dict(zip(dbg_idx, run_sources(binaries["debug"], [cells[i][1] for i in dbg_idx])))
+    # a case that timed out under machine load is re-run alone before it is believed
+    for table, path in ((runs, rel), (druns, binaries["debug"])):
+        for i in (range(len(cells)) if table is runs else dbg_idx):
+            r = table[i]
+            if r[0] != "ok" and "timeout" in (r[0] + r[2]).lower():
+                table[i] = run_sources(path, [cells[i][1]])[0]
+    rows, items, failures, errs = {}, [], [], []
+    for i, ((label, src, exp), c, r) in enumerate(zip(cells, comp, runs)):
+        dim = label.split(":")[1]
+        row = rows.setdefault(dim, {"family": "scale:" + dim, "sizes": [], "status": "ok", "programs": 0, "run_debug": 0})
+        row["programs"] += 1
+        row["sizes"].append(int(label.rsplit(":", 1)[1]))
+        if c[0] != "ok":
+            row["status"] = "DOES-NOT-COMPILE"
+            if c[0] == "crash":
+                failures.append(("compiler crashed on a scale-family program (%s)" % label, src, exp, [str(c[1])[:200]], "compile"))
+            else:
+                errs.append("scale family: %s (below every documented limit) does not compile: %s" % (label, str(c[1])[:160]))
+            continue
+        items.append(Item(label, src, c[1], "scale"))
+        for bname, rr in (("release", r), ("debug", druns.get(i))):
+            if rr is None:
+                continue
+            if bname == "debug":
+                row["run_debug"] += 1
+            if not (rr[0] == "ok" and rr[1] == exp):
+                row["status"] = "WRONG-BEHAVIOUR(%s)" % bname
+                failures.append(("scale-family program %s (output known in closed form) misbehaves in the %s build" % (label, bname),
+                                 src, exp, rr[1] + ([rr[0] + ": " + rr[2].strip()[:200]] if rr[0] != "ok" else []), bname))
+                break
+    # the tie compares the compact cells (the model needs ~1 s per 10 kB of source); every dimension stays represented
+    tie = [(label, src.encode()) for (label, src, exp) in sc.tie_cells(rot, quick)]
+    # EXIT MATRIX: kind of function x kind of early exit x enclosing construct (50 programs, ~250 functions): tie + verifier
+    mcells = sc.matrix_cells()
+    mcomp = compile_sources(rel, [c[1] for c in mcells])
+    mrow = {"family": "exit_matrix", "programs": len(mcells), "status": "ok"}
+    for (label, src, _), c in zip(mcells, mcomp):
+        if c[0] == "ok":
+            items.append(Item(label, src, c[1], "matrix"))
+            tie.append((label, src.encode()))
+        elif c[0] == "crash":
+            failures.append(("compiler crashed on an exit-matrix program (%s)" % label, src, [], [str(c[1])[:200]], "compile"))
+        else:
+            mrow["status"] = "DOES-NOT-COMPILE"
+            errs.append("exit matrix: %s does not compile: %s" % (label, str(c[1])[:160]))
+    out_rows = []
+    for row in rows.values():
+        row["sizes"] = "%d..%d (%d sizes)" % (min(row["sizes"]), max(row["sizes"]), len(set(row["sizes"])))
+        out_rows.append(row)
+    out_rows.append(mrow)
+    return out_rows, items, failures, errs, tie
 
 # ------------------------------------------------------------------------------------------------
 # the check
@@ -1957,7 +2033,10 @@ def run_once(ctx):
     items += aitems
     # ---- 5. the Gallina model of the whole compiler: byte-identical output; programs on which it differs are judged too
     #         (evaluated in a worker thread while the verifier runs; joined below)
-    tie_join = fullcompile_tie(ctx, binary, rng, quick)
+    # round 9: the scale family (drawn AFTER every older generator: their streams are unchanged)
+    zrows, zitems, zfail, zerrs, ztie = scale_family({"release": binary, "debug": ctx.harness("debug")}, rng, quick)
+    items += zitems
+    tie_join = fullcompile_tie(ctx, binary, rng, quick, extra=ztie)
     log("[C04] compiled everything in %.1fs" % (_t.time() - t_start))
     # ---- wire self-test: the model must see exactly the bytes the compiler produced
     probe = [it for it in items if sum(len(f.code) for f in it.tree if f) < 3000][:6] + litems[:1]
@@ -1992,7 +2071,7 @@ def run_once(ctx):
                 if it.label in a_flagged:
                     it.flags = []          # reported through the single-cell programs
         items += rits
-    for e in aerrs + acorr:
+    for e in aerrs + acorr + zerrs:
         ctx.corr_broken.append(e)
     nfn = 0
     hist, lenient_hist, class_hist, group_hist = {}, {}, {}, {}
@@ -2102,6 +2181,11 @@ def run_once(ctx):
         viol.append((what, Item("operand_alias", src, None, "limit", meta), "boundary"))
     for (what, src, exp, act) in bfail:
         viol.append((what, Item("boundary", src, None, "limit", {"expected_output": exp, "actual_output": act}), "boundary"))
+    for (what, src, exp, act, bname) in zfail:
+        meta = {"expected_output": exp, "actual_output": act}
+        if bname in ("release", "debug"):
+            meta["build"] = bname
+        viol.append((what, Item("scale", src, None, "limit", meta), "boundary"))
     # ---- report violations (first one shrunk)
     fails = failing_predicate(binary, "C04")
     # at most 5 reports, one per kind of failure first (a flood of one kind must not hide another)
@@ -2168,7 +2252,7 @@ def run_once(ctx):
         "known_class_histogram": class_hist, "known_class_witnesses": {c: w["source"][:600] for c, w in witnesses.items()},
         "groups": group_hist, "scripts": counts, "core_classes": ncore,
         "generated": {"clean": n_clean, "full": n_full, "compile_errors": gen_err, "feature_histogram": feature_hist},
-        "limit_family": [{k_: v_ for k_, v_ in r.items() if k_ not in ("line_table_ok",)} for r in rows] + brows + srows + crows + arows,
+        "limit_family": [{k_: v_ for k_, v_ in r.items() if k_ not in ("line_table_ok",)} for r in rows] + brows + srows + crows + arows + zrows,
         "fullcompile": fcov, "fullcompile_differing_programs_judged": [
             {"name": it.label, "why": it.meta["why"], "verifier": it.head.get("ALL"), "run": "%s %s" % (it.meta["run"][0], it.meta["run"][2].strip()[:100])} for it in fitems][:10],
         "functions_not_ending_in_return": sum(1 for it in items for fn in (it.fns or []) if not fn.code or fn.code[-1] != OPN["Return"]),
